@@ -107,8 +107,12 @@ def digest(obj) -> int:
 
 def jenc(o):
     """JSON-able encoding that keeps bytes, tuples and non-finite floats."""
-    if isinstance(o, (bytes, bytearray)):
-        return {"$b": bytes(o).hex()}
+    if isinstance(o, bytes):
+        return {"$b": o.hex()}
+    if isinstance(o, bytearray):
+        return {"$ba": bytes(o).hex()}
+    if isinstance(o, memoryview):
+        return {"$mv": [o.format, list(o.shape), o.tobytes().hex()]}
     if isinstance(o, int) and not isinstance(o, bool) and o.bit_length() > 4000:
         return {"$i": hex(o)}  # beyond the int <-> str digit limit
     if isinstance(o, bool) or o is None or isinstance(o, (int, str)):
@@ -136,6 +140,11 @@ def jdec(o):
             (k, v), = o.items()
             if k == "$b":
                 return bytes.fromhex(v)
+            if k == "$ba":
+                return bytearray.fromhex(v)
+            if k == "$mv":
+                mv = memoryview(bytes.fromhex(v[2]))
+                return mv.cast(v[0], v[1]) if (v[0] != "B" or len(v[1]) != 1) else mv
             if k == "$f":
                 return float.fromhex(v)
             if k == "$i":
@@ -442,7 +451,7 @@ def hyp_search(acc: Acc, strategy, check, *, seed, max_examples, known, rounds=3
         def check(case):  # noqa: F811
             return run_with_history(case, inner_check)
 
-    if envs:
+    if envs and not os.environ.get("VP_NO_ENVS"):
         from hypothesis import strategies as _st
 
         env_inner = check
